@@ -55,10 +55,11 @@ Example directory_has_no_content :
   snd (read_path c3 (after hdir) (s "/a")) = Ok [].
 Proof. vm_compute. split; reflexivity. Qed.
 
-(* (5) the corners of T02Counter.v (1), (2) - CreateFile with content by a process that is not 0/0/""/"", CreateFile on
-       an existing regular file - concern owner and time columns only: the contents are right ([cfg_rs] has uid 7,
-       gid 8; no hypothesis of T04 excludes these calls).  The overwritten file reads the new content, the position
-       moved to the new record, and the old record is still on the tape at its old position. *)
+(* (5) the corner of T02Counter.v (2) - CreateFile on an existing regular file - concerns the modification time
+       column only: the contents are right (no hypothesis of T04 excludes the call; [cfg_rs] has uid 7, gid 8, and
+       since the flush keeps the owner of the entry no theorem of T02 has a hypothesis on the identity either).  The
+       overwritten file reads the new content, the position moved to the new record, and the old record is still on
+       the tape at its old position. *)
 Definition hover : list (call * env) := hfile ++ [(CCreateFile (s "/f") [(2, 0, 700)], eh [] 3)].
 Example overwrite_reads_new_content :
   content_of c3 (after hover) (s "/f") = Some [(2, 0, 700)] /\
